@@ -21,17 +21,27 @@ pub enum BatchResult {
 }
 
 pub fn program(prefix: &str, cases: &[BCase]) -> String {
-    let mut src = String::with_capacity(prefix.len() + cases.iter().map(|c| c.text.len() + 1).sum::<usize>());
+    program_ps(prefix, "", cases)
+}
+
+pub fn program_ps(prefix: &str, suffix: &str, cases: &[BCase]) -> String {
+    let mut src = String::with_capacity(prefix.len() + suffix.len() + cases.iter().map(|c| c.text.len() + 1).sum::<usize>());
     src.push_str(prefix);
     for c in cases {
         src.push_str(&c.text);
         src.push('\n');
     }
+    src.push_str(suffix);
     src
 }
 
 pub fn run_batch(prefix: &str, cases: &[BCase]) -> BatchResult {
-    let src = program(prefix, cases);
+    run_batch_ps(prefix, "", cases)
+}
+
+/// as `run_batch`, with text after the packed lines as well (e.g. late .equ definitions)
+pub fn run_batch_ps(prefix: &str, suffix: &str, cases: &[BCase]) -> BatchResult {
+    let src = program_ps(prefix, suffix, cases);
     let out = sut::build_str(&src);
     if let Outcome::Ok(b) = &out {
         let total: usize = cases.iter().map(|c| c.expect.len()).sum();
@@ -53,7 +63,7 @@ pub fn run_batch(prefix: &str, cases: &[BCase]) -> BatchResult {
     // localise
     let mut fails = vec![];
     for (i, c) in cases.iter().enumerate() {
-        let o = run_single(prefix, &c.text);
+        let o = run_single_ps(prefix, suffix, &c.text);
         let pass = matches!(&o, Outcome::Ok(b) if b.code == c.expect && b.eeprom.is_empty());
         if !pass {
             fails.push((i, o));
@@ -78,9 +88,14 @@ pub fn run_batch(prefix: &str, cases: &[BCase]) -> BatchResult {
 }
 
 pub fn run_single(prefix: &str, line: &str) -> Outcome {
-    let mut src = String::with_capacity(prefix.len() + line.len() + 1);
+    run_single_ps(prefix, "", line)
+}
+
+pub fn run_single_ps(prefix: &str, suffix: &str, line: &str) -> Outcome {
+    let mut src = String::with_capacity(prefix.len() + suffix.len() + line.len() + 1);
     src.push_str(prefix);
     src.push_str(line);
     src.push('\n');
+    src.push_str(suffix);
     sut::build_str(&src)
 }
